@@ -8,6 +8,7 @@ import (
 	"strings"
 	"sync"
 	"testing"
+	"time"
 
 	"perkeep.org/pkg/blob"
 	"perkeep.org/pkg/blobserver"
@@ -16,6 +17,7 @@ import (
 	"verif/bk"
 	"verif/c14prog"
 	"verif/hs"
+	"verif/idxsets"
 	"verif/lin"
 	"verif/sched"
 	"verif/vk"
@@ -89,7 +91,7 @@ func scenario(spec *bk.Spec, p c14prog.Program, bound int) *sched.Config {
 					x.Fail("bad-result-final:"+probClass(prob), prob)
 				}
 			}
-			for _, o := range []c14prog.Op{{Kind: lin.Stat, Mask: 7}, {Kind: lin.Enum, Mask: 0}} {
+			for _, o := range []c14prog.Op{{Kind: lin.Stat, Mask: 1<<len(c14prog.Universe) - 1}, {Kind: lin.Enum, Mask: 0}} {
 				call := rec.Now()
 				out, prob := c14prog.Do(sto, o)
 				rec.Add(99, lin.In{Kind: o.Kind, Mask: o.Mask}, call, out, rec.Now())
@@ -160,9 +162,29 @@ func TestCheck(t *testing.T) {
 		res.Write()
 		return
 	}
-	// every shard runs every scenario's default execution and its share of the subtrees below it
+	// every shard runs every scenario's default execution and its share of the subtrees below it;
+	// storage scenarios get 3/4 of the time budget, the index scenarios the rest
+	start, end := time.Now(), vk.Deadline()
+	storeEnd := start.Add(end.Sub(start) * 3 / 4)
 	for _, sc := range scs {
-		sched.Explore(t, sc, res, vk.Deadline())
+		sched.Explore(t, sc, res, storeEnd)
+	}
+	// index fed concurrently: every partition of an arrival order over 2 goroutines; the
+	// final rows must equal the sequential dependency-ordered run (any linearization of the
+	// receives gives that state)
+	for _, s := range idxsets.Sets() {
+		n := len(s.Canon)
+		if n > 4 {
+			continue
+		}
+		want := idxsets.Canonical(s)
+		rev := make([]int, n)
+		for i := range rev {
+			rev[i] = n - 1 - i
+		}
+		for _, assign := range idxsets.Partitions(n, 2) {
+			sched.Explore(t, idxsets.ConcurrentScenario("C14|index|", s, rev, assign, 2, 2, want), res, end)
+		}
 	}
 	compact(res)
 	res.Write()
